@@ -158,7 +158,7 @@ static void run_history(const World &w0, const vector<Op> &ops, bool ortho, bool
 static vector<Op> legal_ops(const World &w, const vector<Op> &pendingInTx) {
     vector<Op> v;
     for (size_t s = 0; s < w.shapes.size(); s++) if (w.shapes[s].alive) {
-        bool addedInTx = false, movedInTx = false; for (auto &p : pendingInTx) { if (p.kind == 2 && w.shapes.size() - 1 == s) addedInTx = true; if (p.kind == 0 && p.a == (int)s) movedInTx = true; }
+        bool addedInTx = false, movedInTx = false; size_t nAdds = 0; for (auto &p : pendingInTx) { if (p.kind == 2) nAdds++; if (p.kind == 0 && p.a == (int)s) movedInTx = true; } if (s + nAdds >= w.shapes.size()) addedInTx = true;   // the shapes added in the pending transaction are the last nAdds of the list (a first version only knew the last one: with two additions pending it deleted the first of them -- an illegal history, caught by the library's own assertion)
         for (int dx = -1; dx <= 1; dx++) for (int dy = -1; dy <= 1; dy++) if ((dx == 0) != (dy == 0)) v.push_back({0, (int)s, dx, dy});
         bool attached = false; for (auto &c : w.conns) if (c.a0 == (int)s) attached = true;
         if (!addedInTx && !attached) v.push_back({1, (int)s, 0, 0});   // (a shape with a connector attached to it is not deleted: what becomes of the connector end is not specified)
